@@ -368,7 +368,13 @@ func (p *n09Proxy) eventLog() string {
 	p.mu.Lock()
 	defer p.mu.Unlock()
 	var sb strings.Builder
-	for _, e := range p.events {
+	for i, e := range p.events {
+		if i == 60 && len(p.events) > 80 {
+			fmt.Fprintf(&sb, "    ... %d more events ...\n", len(p.events)-80)
+		}
+		if i >= 60 && i < len(p.events)-20 {
+			continue
+		}
 		fmt.Fprintf(&sb, "    [l2f byte %d] conn %d: %s\n", e.At, e.Conn, e.What)
 	}
 	return sb.String()
@@ -674,6 +680,8 @@ type n09Info struct {
 	excludedCreateByUpdate             int
 	skipAhead, deferredCuts            int
 	knownDupFlush                      int
+	knownCompactedLog                  int
+	excludedEmptyRotation              int
 }
 
 type n09Out struct {
@@ -732,7 +740,7 @@ func n09InstOpts(c *n09Case) vInstOpts {
 }
 
 func n09NewEnv(c *n09Case) (*n09Env, error) {
-	e := &n09Env{c: c, truth: map[uint32][]n09Rec{}, finalOff: map[uint32]uint32{}, noCreateByUpdate: vIsKnown(n09KeyCompaction)}
+	e := &n09Env{c: c, truth: map[uint32][]n09Rec{}, finalOff: map[uint32]uint32{}, noCreateByUpdate: n09Known(n09KeyCompaction)}
 	o := n09InstOpts(c)
 	o.DataDir = vScratchDir("n09-leader")
 	leader, err := n09StartNode(o, false)
@@ -755,7 +763,7 @@ func n09NewEnv(c *n09Case) (*n09Env, error) {
 			e.close()
 			return nil, perr
 		}
-		p.protectWindow = vIsKnown(n09KeySkipAhead)
+		p.protectWindow = n09Known(n09KeySkipAhead)
 		e.slots = append(e.slots, &n09Slot{proxy: p, dir: vScratchDir(fmt.Sprintf("n09-f%d", i))})
 	}
 	e.stopNudge, e.nudgeDone = make(chan struct{}), make(chan struct{})
@@ -821,6 +829,13 @@ func (e *n09Env) close() {
 	e.info.abandoned = atomic.LoadInt64(&vAbandoned) - before
 }
 
+// n09Known: exclusions / suppressions for listed findings are active in the property, never in a replay.
+var n09ReplayMode bool
+
+func n09Known(key string) bool { return !n09ReplayMode && vIsKnown(key) }
+
+const n09KeyCompactedLog = "C09:leader-compacted-log-does-not-reproduce-leader-state"
+const n09KeyWedged = "C09:follower-wedged-by-append-file-index-hole"
 const n09KeySkipAhead = "C09:aborted-full-transfer-resumes-at-bound-skipping-history"
 const n09KeyCompaction = "C09:full-transfer-after-compaction-loses-hold-created-by-update-request"
 
@@ -878,7 +893,7 @@ func (e *n09Env) send(op n09Op) {
 // rotate is Admin.commandHandleRewriteAofCommand; before the switch the harness copies the file
 // that is being closed (the background compaction deletes it).
 func (e *n09Env) rotate() {
-	if vIsKnown(n09KeySkipAhead) {
+	if n09Known(n09KeySkipAhead) {
 		// known finding: a transfer that the leader aborts (its compaction deletes a file sendFiles is about to
 		// read) before the first record leaves the follower at the bound. Excluded as far as the harness can:
 		// no rotation while a follower is inside that window.
@@ -908,6 +923,14 @@ func (e *n09Env) rotate() {
 	if aof.aofFile == nil {
 		aof.aofGlock.Unlock()
 		e.logf("    (rotation skipped: no open file)")
+		return
+	}
+	if n09Known(n09KeyWedged) && aof.aofFileOffset == 0 && aof.aofFileIndex > 1 {
+		// known finding: an append file that stays empty on the leader is never created on a streaming
+		// follower, whose directory then has an index hole. Excluded: no rotation of an empty file.
+		aof.aofGlock.Unlock()
+		e.info.excludedEmptyRotation++
+		e.logf("    (rotation skipped: current file is empty - known finding %s)", n09KeyWedged)
 		return
 	}
 	aof.Flush()
@@ -1021,6 +1044,9 @@ func (e *n09Env) waitCaughtUp(f int, target [16]byte) string {
 	s := e.slots[f]
 	deadline := time.Now().Add(n09Watchdog)
 	var last string
+	var holeSince time.Time
+	var holeConnects uint64
+	polls := 0
 	for {
 		sl := s.node.inst.slock
 		cc := sl.replicationManager.clientChannel
@@ -1035,6 +1061,20 @@ func (e *n09Env) waitCaughtUp(f int, target [16]byte) string {
 			last = fmt.Sprintf("follower %d at %s (recv %d replay %d append %d, connects %d, state %d), leader at %s", f, FormatAofId(cc.currentAofId), st.recvCount, st.replayCount, st.appendCount, st.connectCount, sl.state, FormatAofId(target))
 		} else {
 			last = fmt.Sprintf("follower %d has no replication client", f)
+		}
+		polls++
+		if polls%100 == 0 && cc != nil {
+			// a follower that can never resynchronise: its own directory has a hole in the append file
+			// indices, so every Aof.Reset / FindAofFiles fails ("append.aof file index error")
+			if _, _, ferr := sl.aof.FindAofFiles(); ferr != nil && strings.Contains(ferr.Error(), "file index error") {
+				if holeSince.IsZero() {
+					holeSince, holeConnects = time.Now(), cc.state.connectCount
+				} else if time.Since(holeSince) > time.Second && cc.state.connectCount > holeConnects+3 {
+					return "WEDGED: " + last + fmt.Sprintf("; the follower's directory has a hole in its append file indices (%v), every resynchronisation attempt fails (%d reconnects in %v)", ferr, cc.state.connectCount-holeConnects, time.Since(holeSince).Round(time.Millisecond)) + "\n" + e.dumpFiles(f)
+				}
+			} else {
+				holeSince = time.Time{}
+			}
 		}
 		if time.Now().After(deadline) {
 			return "quiescence watchdog: " + last + "\n" + e.dumpFiles(f)
@@ -1177,6 +1217,37 @@ func n09CompareState(lead, fol map[string]*n09KeyState) string {
 	}
 	sort.Strings(diffs)
 	return strings.Join(diffs, "; ")
+}
+
+// referenceState boots a scratch leader from a copy of the leader's directory and returns what the
+// leader's own files recover to. Used only to attribute a divergence: a follower that equals this
+// state applied the leader's log exactly - the log itself (after compaction) is what is wrong.
+func (e *n09Env) referenceState() (map[string]*n09KeyState, error) {
+	aof := e.leader.inst.slock.aof
+	_ = aof.WaitRewriteAofFiles()
+	aof.FlushWithLocked()
+	dir := vScratchDir("n09-ref")
+	m, _ := filepath.Glob(filepath.Join(aof.dataDir, "*"))
+	for _, f := range m {
+		b, err := os.ReadFile(f)
+		if err != nil {
+			continue
+		}
+		if err = os.WriteFile(filepath.Join(dir, filepath.Base(f)), b, 0644); err != nil {
+			return nil, err
+		}
+	}
+	o := n09InstOpts(e.c)
+	o.DataDir = dir
+	inst, err := vNewInst(o)
+	if err != nil {
+		_ = os.RemoveAll(dir)
+		return nil, err
+	}
+	n09Drain(inst.slock.aof)
+	st := n09Canon(inst.slock, false)
+	inst.vClose(false, true)
+	return st, nil
 }
 
 type n09Rec struct {
@@ -1400,7 +1471,8 @@ func (e *n09Env) checkFiles(f int, target n09Id) (key, msg string) {
 	aof.FlushWithLocked()
 	files, rewrite, err := aof.FindAofFiles()
 	if err != nil {
-		return "", "" // directory listing failed (file index hole while compacting): not judged
+		// no compaction is running (waited above): the hole is permanent
+		return n09KeyWedged, fmt.Sprintf("follower %d is caught up in memory but its directory is unusable: Aof.FindAofFiles fails with %q (hole in the append file indices) - no later resynchronisation (Aof.Reset), compaction or restart of this follower can succeed", f, err.Error())
 	}
 	s.proxy.mu.Lock()
 	var start *n09Id
@@ -1447,6 +1519,9 @@ func (e *n09Env) syncAndCheck(final bool) (key, violation, inconclusive string) 
 	}
 	for _, i := range active {
 		if why := e.waitCaughtUp(i, target); why != "" {
+			if strings.HasPrefix(why, "WEDGED: ") {
+				return n09KeyWedged, fmt.Sprintf("follower %d never converges: %s", i, why[8:]), ""
+			}
 			return "", "", why
 		}
 	}
@@ -1462,7 +1537,7 @@ func (e *n09Env) syncAndCheck(final bool) (key, violation, inconclusive string) 
 		fol := n09Canon(s.node.inst.slock, false)
 		if d := n09CompareState(lead, fol); d != "" {
 			key := "C09:follower-state-diverges"
-			if s.tainted && vIsKnown(n09KeyDupFlush) {
+			if s.tainted && n09Known(n09KeyDupFlush) {
 				key = n09KeyDupFlush // the follower reloaded a directory that the double flush had corrupted
 			}
 			s.proxy.mu.Lock()
@@ -1470,7 +1545,22 @@ func (e *n09Env) syncAndCheck(final bool) (key, violation, inconclusive string) 
 				key = n09KeySkipAhead
 			}
 			s.proxy.mu.Unlock()
-			return key, fmt.Sprintf("follower %d caught up to the leader's last id %s but its state differs: %s\n    leader (persisted holds):\n%s    follower %d:\n%s", i, tid, d, n09DescribeState(lead), i, n09DescribeState(fol)) + e.dumpFiles(i), ""
+			note := ""
+			if key == "C09:follower-state-diverges" {
+				if ref, rerr := e.referenceState(); rerr == nil {
+					if rd := n09CompareState(ref, fol); rd == "" {
+						key = n09KeyCompactedLog
+						note = "    the follower equals what a restart of the leader from its own files recovers: the leader's (compacted) log no longer describes the leader's state\n"
+						if n09Known(key) {
+							e.info.knownCompactedLog++
+							continue
+						}
+					} else {
+						note = "    a restart of the leader from its own files recovers yet another state:\n" + n09DescribeState(ref)
+					}
+				}
+			}
+			return key, note + fmt.Sprintf("follower %d caught up to the leader's last id %s but its state differs: %s\n    leader (persisted holds):\n%s    follower %d:\n%s", i, tid, d, n09DescribeState(lead), i, n09DescribeState(fol)) + e.dumpFiles(i), ""
 		}
 		s.proxy.mu.Lock()
 		wire := s.proxy.wireViolation
@@ -1485,7 +1575,7 @@ func (e *n09Env) syncAndCheck(final bool) (key, violation, inconclusive string) 
 			}
 		}
 		if key, msg := e.checkFiles(i, tid); msg != "" {
-			if key == n09KeyDupFlush && vIsKnown(key) {
+			if key == n09KeyDupFlush && n09Known(key) {
 				e.info.knownDupFlush++
 				continue
 			}
